@@ -39,5 +39,5 @@ stub_property!(c15, C15, "C15");
 pub mod c16;
 pub mod c17;
 stub_property!(c18, C18, "C18");
-stub_property!(c19, C19, "C19");
+pub mod c19;
 pub mod c20;
